@@ -56,6 +56,8 @@ def spec_value(xs, ys, q):
 
 
 def check(run):
+    import genlib
+    genlib.validate_table_reader(run, n=run.n(150, 1500))
     run.rule = ("(a) 2..40-row tables on uneven dyadic grids rendered as data files with comments / blank / indented lines, shuffled row order, extra columns, with and without a final newline; "
                 "queries at every data point, between neighbours and outside; (b) 4..200-point table forms (uneven spacing), x/y vs xy, API and potable, on/in/out queries, Richardson check of "
                 "deriv/deriv2; (c) plotToFile for random ranges and step counts; distinct = (file text | data, query)")
